@@ -139,6 +139,11 @@ def write_tree(root, files):
                 os.unlink(p)
             os.symlink(text[len("\0symlink:"):], p)
             continue
+        if text.startswith("\0latin1:"):
+            # a file in a legacy encoding: the text after the marker, written as Latin-1 bytes (not valid UTF-8 if it has any non-ASCII)
+            with open(p, "wb") as f:
+                f.write(text[len("\0latin1:"):].encode("latin-1"))
+            continue
         with open(p, "w", encoding="utf-8") as f:
             f.write(text)
 
